@@ -13,7 +13,7 @@ REAL = ["train_* routines", "sample_actions / sample_target_actions", "Determini
 STUB = ["environment (SimEnv, checks bounds)", "reward model (probe)", "sampler (recording)"]
 ASSUMPTIONS = ["tolerance 1 ulp of max|bound| for policy-driven actions, 0 for sampled (warm-up) actions",
                "'any network output however large' and key-determined noise form are pure clauses and not decided here"]
-TIERS = {"quick": {"runs": 128}, "thorough": {"runs": 2000}}
+TIERS = {"quick": {"runs": 152}, "thorough": {"runs": 2200}}
 REQUIRED = ["actions_in_bounds", "action_on_bound", "target_actions_in_bounds", "smoothing_within_noise_clip", "planner_candidates_in_bounds", "noise0_action_equals_policy", "noise_scale_samples", "other_bounds_trained_first_in_process"]
 REQUIRED_QUICK = ["actions_in_bounds", "target_actions_in_bounds", "planner_candidates_in_bounds"]
 CHUNK = 24  # TrainSim plans per fresh worker process
@@ -23,7 +23,26 @@ CLAUSES = ["C10.a", "C10.b", "C10.c", "C10.d", "C10.e", "C10.f", "C01.d"]
 ADAPTERS = ["ddpg", "td3", "td3_lap", "td7", "mrq", "pets", "td3", "td3_lap"]  # SAC is not in the property's list (unsquashed Gaussian policy)
 
 
+BASE = {"quick": 128, "thorough": 2000}  # additive extension: plans below these indices are those of the earlier tiers
+
+
+def make_planner_bound_plan(rng):
+    """PETS with the optimum of the (scripted) reward ON an action bound (box that excludes 0), a single elite and one CEM
+    iteration per MPC call: the planner's mean is then pulled towards the bound as hard as it ever is."""
+    plan = trainplan.base_plan(rng, PROPERTY, CLAUSES, "pets", T=rng.choice([10, 12]))
+    lo, hi = rng.choice([([0.5], [3.0]), ([-3.0], [-0.5]), ([0.5, -3.0, 10.0], [1.0, 3.0, 11.0]), ([1.0, -4.0], [3.0, -2.5])])
+    plan["env"]["low"], plan["env"]["high"], plan["env"]["act_dim"] = lo, hi, len(lo)
+    plan["cfg"]["n_opt_iter"] = 1
+    plan["cfg"]["plan_horizon"] = rng.choice([1, 2, 3])
+    plan["cfg"]["learning_starts"] = rng.choice([4, 5])
+    plan["cfg"]["batch_size"] = 2
+    plan["supply_targets"] = False
+    return plan
+
+
 def make_plan(rng, tier, index):
+    if index >= BASE.get(tier, 10**9):
+        return make_planner_bound_plan(rng)
     name = ADAPTERS[index % len(ADAPTERS)]
     plan = trainplan.base_plan(rng, PROPERTY, CLAUSES, name, T=rng.choice([12, 20]) if name != "pets" else 10)
     if name == "pets" and rng.random() < 0.7:
